@@ -211,6 +211,16 @@ def run_single(rng, res, idx):
                     if not e2 <= 1e-9:
                         return res.violation(f'checkpoint at boundary {c} (next step refreshes={stale_at[c]["next_refresh"]}, live data fresh={stale_at[c]["fresh"]}): '
                                              f'gradient of layer {n} at step {t} differs from the uninterrupted run by {e2:.3e}', case, c=c, step=t)
+        if c < T and rng.random() < 0.5:
+            # the checkpoint object that was loaded above is loaded a second time, after training continued on the
+            # preconditioner it was loaded into: it must still restore the state that was saved
+            run.fresh_preconditioner()
+            run.p.load_state_dict(sd, compute_inverses=True)
+            res.count('second_loads_of_the_same_checkpoint')
+            msg = sd_equal(want, run.p.state_dict())
+            if msg:
+                return res.violation(f'boundary {c}: loading the same in-memory checkpoint a second time (after {T - c} further steps on the preconditioner it was first '
+                                     f'loaded into) does not restore the saved state: {msg}', case, c=c)
         if not must_equal:
             res.nontrivial.add(stable_hash(cfg, c, base.info['desc']))
             res.count('stale_boundaries')
